@@ -26,6 +26,12 @@ def small_alt(x: int) -> tuple:
     return (x, x * x * x, "q" * (3 + x % 5), [x / 2.0, x / 5.0, 1.0])
 
 
+def falsy(x: int):  # noqa: ANN201
+    """Results that are legitimate values but false in a boolean context (no solution found, empty, zero)."""
+    _log(x)
+    return [None, 0, "", [], False, 0.0, {}, (x,)][x % 8]
+
+
 def medium(x: int) -> dict:
     _log(x)
     return {"key": x, "data": [float(i * x) for i in range(300)], "text": "t" * 200}
